@@ -975,6 +975,9 @@ theorem combineBind_reach {F : Prop} {is : List Instr} {left right : Reg} {sc : 
   have key : Reach F sc sc' ∧ (F → RegOk left' sc' ∧ RegOk right sc') := by
     split at hq
     · rename_i s hs
+      split at hq
+      · cases hq
+        exact ⟨Reach.refl _, hF⟩
       obtain ⟨r, h1, h2, rfl⟩ := Scope.updateType_ok hq
       have st : Step F sc { sc with named := regSet s left' sc.named } := by
         refine Step.upd sc s right.getType r left' h1 h2 (fun f => ?_)
@@ -1524,6 +1527,8 @@ theorem combineBind_known {is : List Instr} {left right : Reg} {sc : Scope} {c :
   have kl' : Known sc' left' := by
     split at hq
     · rename_i s hs
+      split at hq
+      · cases hq; exact hl
       obtain ⟨r, h1, h2, rfl⟩ := Scope.updateType_ok hq
       refine Known.of_get (n := s) ?_
       show regGet s (regSet s left' sc.named) = some left'
